@@ -4,7 +4,8 @@ import itertools
 from .. import core, bdd
 from ..core import Failure
 
-IDENTS = ['a', 'b', 'c', 'd', 'x1', '_v', 'Var', 'notx', 'andy', 'orb', 'lambda_', 'T']
+IDENTS = ['a', 'b', 'c', 'd', 'x1', '_v', 'Var', 'notx', 'andy', 'orb', 'lambda_', 'T', 'ab', 'abc', 'A', 'match', 'case',
+          'type', 'x2', 'a1', 'e', 'True_', 'None_', 'id', 'print']
 
 
 def _obdd():
@@ -41,6 +42,10 @@ def check_notation(inp):
             if tt != ref_tt:
                 return Failure('notation', inp, ref_tt, tt,
                                '%s notation of %r denotes another function' % (nm, text))
+            sp = bdd.structure_problem(r[1].root, args)
+            if sp:
+                return Failure('notation', inp, 'a diagram ordered by %s' % (args,), sp,
+                               '%s notation of %r' % (nm, text))
         if not (r1[1] == r2[1]) or not (r2[1] == r1[1]):
             return Failure('notation', inp, 'equal OBDDs', 'lambda form != expression form', text)
         built.append((text, r1[1]))
@@ -291,10 +296,10 @@ def random_shard(st, shard, nshards, payload):
 
     @hs.composite
     def cases(draw):
-        nv = draw(hs.integers(1, 4))
+        nv = draw(hs.integers(1, 5))
         names = draw(hs.lists(hs.sampled_from(IDENTS), min_size=nv, max_size=nv, unique=True))
         e = draw(bdd.st_expr(tuple(names), max_depth=4))
-        extra = draw(hs.lists(hs.sampled_from([x for x in IDENTS if x not in names]), max_size=1, unique=True))
+        extra = draw(hs.lists(hs.sampled_from([x for x in IDENTS if x not in names]), max_size=3, unique=True))
         args = draw(hs.permutations(sorted(bdd.variables_of(e) | set(extra)) or names[:1]))
         return {'e': e, 'args': list(args)}
 
@@ -318,10 +323,11 @@ def random_shard(st, shard, nshards, payload):
         if f is not None:
             return f
         used = sorted(bdd.variables_of(e))
-        if used:
-            v = used[len(used) // 2]
+        for v in used:
             st.bump('random missing-variable cases')
-            return check_missing({'e': inp['e'], 'args': [x for x in inp['args'] if x != v]})
+            f = check_missing({'e': inp['e'], 'args': [x for x in inp['args'] if x != v]})
+            if f is not None:
+                return f
         return None
 
     f = core.hyp_run(payload['seed'] * 1000 + shard, cases(), body, payload['n'])
